@@ -203,21 +203,49 @@ def rule_h5_sections(repo, col):
 
     def names(e):
         return {x.id for x in ast.walk(e) if isinstance(x, ast.Name)}
+
+    def derived(attr):
+        # locals computed from `<table>.<attr>(...)` (and from each other)
+        out = set()
+        changed = True
+        while changed:
+            changed = False
+            for n in ast.walk(f):
+                if isinstance(n, ast.Assign) and any(
+                        (isinstance(x, ast.Call) and isinstance(
+                            x.func, ast.Attribute) and x.func.attr == attr)
+                        or (isinstance(x, ast.Name) and x.id in out)
+                        for x in ast.walk(n.value)):
+                    for t in n.targets:
+                        for x in ast.walk(t):
+                            if isinstance(x, ast.Name) and x.id not in out:
+                                out.add(x.id)
+                                changed = True
+        return out
+    ids_names = derived('ids') | {'ids', 'len_ids'}
+    gmd_names = derived('group_metadata') | {'group_md'}
+    md_names = derived('metadata') | {'md'}
+    reg_var = 'formatter'
+    for n in ast.walk(f):
+        if isinstance(n, ast.Assign) and isinstance(
+                n.targets[0], ast.Name) and isinstance(n.value, ast.Call) \
+                and call_name(n.value) == 'defaultdict':
+            reg_var = n.targets[0].id
     sections = []
     for n in ast.walk(loop):
         if isinstance(n, ast.Call) and isinstance(n.func, ast.Attribute) and \
                 n.func.attr == 'create_dataset' and n.args:
             a = unparse(n.args[0])
             if 'group-metadata/' in a:
-                sections.append(('group-metadata', n, {'group_md'}))
+                sections.append(('group-metadata', n, gmd_names))
             elif a in ("'matrix/data'", "'matrix/indices'",
                        "'matrix/indptr'"):
                 sections.append((a.strip("'"), n, set()))
             elif a == "'ids'":
-                sections.append(('ids', n, {'len_ids', 'ids'}))
+                sections.append(('ids', n, ids_names))
         if isinstance(n, ast.Call) and isinstance(n.func, ast.Subscript) and \
-                dotted(n.func.value) == 'formatter':
-            sections.append(('metadata', n, {'md'}))
+                dotted(n.func.value) == reg_var:
+            sections.append(('metadata', n, md_names))
     if len(sections) < 6:
         col.unknown(rule, TABLE, 'Table.to_hdf5', 'sections', loop,
                     'only %d sections recognised' % len(sections))
@@ -242,12 +270,15 @@ def rule_h5_sections(repo, col):
         gs = guards(node)
         if not gs:
             continue
-        src = names(gs[-1])
-        ok = bool(src & {'len_ids', 'ids'})
-        # len_ids must be len(ids)
-        la = assigns.get('len_ids', [(None, None)])[0][0]
-        if 'len_ids' in src:
-            ok = ok and la is not None and unparse(la) == 'len(ids)'
+        src = names(gs[-1]) - {'len', 'self'}
+        idl = derived('ids')
+        ok = bool(src) and src <= idl
+        # a name in the guard that counts must count the ids
+        for nm in src:
+            la = assigns.get(nm, [(None, None)])[0][0]
+            if la is not None and isinstance(la, ast.Call) and \
+                    call_name(la) == 'len':
+                ok = ok and bool(names(la) & idl)
         col.check(ok, 'AG-SPEC', TABLE, 'Table.to_hdf5', 'ids-variant-guard',
                   gs[-1], 'the empty-axis variant of the ids dataset is '
                   'chosen by the number of ids',
